@@ -648,6 +648,46 @@ def run(chk, facts, tier, only=None):
     def r3():
         model, info = lexer()
         interp = Interp(c)
+        # numbers of any size: the text -> Int / Nat conversion may only fail when the arbitrary-precision parser fails; a machine-width
+        # parse (str::parse::<i128>, from_str_radix on a primitive) whose failure becomes the function's error cuts the domain off
+        for tname in ("Int", "Nat"):
+            pf = c.fn(r"^candid::types::number::%s::parse$" % tname)
+            chk.analysed(pf["key"])
+            tries = [x for x in walk(pf["body"]) if x.get("k") == "call" and (callee(x) or "").endswith("Try::branch")]
+            errs = [x for x in walk(pf["body"]) if x.get("k") == "ret"]
+            srcs = set()
+            for x in tries + errs:
+                for y in walk(x):
+                    if y.get("k") in ("call", "mcall"):
+                        cal = callee(y) or ""
+                        if re.search(r"(::parse$|from_str_radix$|from_utf8$|::try_from$|::try_into$|parse_bytes$|::from_str$)", cal):
+                            srcs.add(cal)
+            narrow = sorted(x for x in srcs if not re.search(r"(BigInt|BigUint|bigint::|biguint::|num_bigint|Num>?::)", x))
+            chk.expect(bool(srcs) and not narrow, f"text-to-number:{tname}::parse:any-size",
+                       f"candid::types::number::{tname}::parse can fail because of {narrow}: only the arbitrary-precision parser may decide that a "
+                       f"digit string is not a number — printed values just above a machine width would no longer parse back",
+                       where=f"{pf['span']['file']}:{pf['span']['lo']}", ok_detail=f"fails only through {sorted(x.rsplit('::', 2)[-2] + '::' + x.rsplit('::', 1)[-1] for x in srcs)}")
+        # the blob shorthand of the abbreviating printer (Debug for IDLValue): an all-nat8 vector may be written `blob "…"`, but only a
+        # non-empty one — `blob ""` re-reads as a Blob, which is not a value of `vec t` for any other t.  Decided by evaluating the Vec arm.
+        dbg = [hh for k_, hh in c.hir.items() if re.search(r"impl core::fmt::Debug for candid::types::value::IDLValue>::fmt$", k_)]
+        if len(dbg) != 1:
+            raise AnchorMissing("Debug for IDLValue not found")
+        chk.analysed(dbg[0]["key"])
+        IVp = "candid::types::value::IDLValue::"
+        from c11_util import Formatter as _Fm
+        try:
+            outs = {}
+            for nm_, val_ in (("empty", ("enum", IVp + "Vec", [[]])),
+                              ("nat8", ("enum", IVp + "Vec", [[("enum", IVp + "Nat8", [1]), ("enum", IVp + "Nat8", [65])]]))):
+                fm_ = _Fm()
+                Interp(c).call_fn(dbg[0], [val_, fm_])
+                outs[nm_] = fm_.text()
+            chk.expect(outs["empty"].startswith("vec") and "blob" not in outs["empty"], "debug-vec:empty-is-not-a-blob",
+                       f"Debug for IDLValue prints an empty vector as {outs['empty']!r}: the blob shorthand is only sound for a non-empty vector of "
+                       f"nat8 (the empty `blob \"\"` parses to a Blob and no longer annotates at `vec t`)",
+                       where=f"{dbg[0]['span']['file']}:{dbg[0]['span']['lo']}", ok_detail=f"empty vector -> {outs['empty']!r}, nat8 vector -> {outs['nat8']!r}")
+        except NotEvaluable as e_:
+            raise AnchorMissing(f"Debug for IDLValue (Vec arm) is outside the evaluable fragment: {e_}")
         # parse_number removes exactly the digit separator the printers use
         pn = p.fn(r"token::parse_number$")
         chk.analysed(pn["key"])
